@@ -442,7 +442,7 @@ _C04D.update({
     "reportDeallocateNonAllocatedMemoryFailure": {"event": "DReport 1 HNull"}})
 HEAP_RECORDS["C04D"] = HEAP_RECORDS["C04"] + [["MemoryLeakDetector", MLD]]
 _D04 = dict(calls=_C04D, enums=["MemLeakPeriod"], ghosts=_G04D, sizeof={"MemoryLeakDetectorNode": "sizeof_MemoryLeakDetectorNode"},
-            globals={"memory_corruption_buffer_size": "3"}, string_literal_default="0")
+            globals={"memory_corruption_buffer_size": "3"}, string_literal_default="0", unnamed_params=True)
 HEAP_GROUPS["C04D"] = (
     [dict(file=MLD, name="MemoryLeakDetectorNode::init", coq="src_node_init", **_D04)] +
     [dict(file=MLD, name=n, coq=_D + n, **_D04) for n in ["calculateVoidPointerAlignedSize", "sizeLeavesRoomForAccountingInformation"]] +
